@@ -308,6 +308,8 @@ REWRITES = [
 def group_of(what):
     """the group(s) whose theorems a mutation/rewrite labelled `what` concerns"""
     fn = what.split(":")[0]
+    if fn == "get_cipher_type":
+        return ["Decrypt", "Decrypt2"]          # translated in both (over two different state records)
     table = {"get_header_type": ["QuicDissect", "QuicDissect2"], "get_packet_type": ["QuicDissect", "QuicDissect2"],
              "decode_variable_length_int": ["Varint", "Frames", "QuicDissect2"],
              "get_variable_length_int_length": ["Varint", "Frames", "QuicDissect2"],
@@ -338,8 +340,7 @@ def group_of(what):
         return ["QuicSess3"]
     if fn in ("parse_keys", "Decryptor.__init__"):
         return ["Decrypt2"]
-    if fn == "get_cipher_type":
-        return ["Decrypt", "Decrypt2"]
+
     if fn in ("Key", "get_key_from_line", "get_keys_from_string"):
         return ["Keylog"]
     if fn.startswith("main."):
